@@ -49,8 +49,18 @@ def generate(rng, i, tier):
             modes["logic-mode"] = "OR"
         if rng.random() < 0.1:
             modes["unmatched-mode"] = "keep"
+        if rng.random() < 0.12:
+            modes["print-mode"] = "no-default"  # "do not print to the console": what is collected as printouts is unchanged
         members.append(gen.gen_member(rng, hdr, len(rows), f"m{j}", zoo_p=0.4, zoo_pool=gen.ZOO_SAFE, modes=modes))
     rng.shuffle(members)  # seeded member order
+    if k >= 2 and rng.random() < 0.1:
+        # the very same csvpath twice in the group, without an identity (legal: members are then known by position)
+        a = rng.randrange(len(members))
+        twin = dict(members[a], id=None)
+        members[a] = dict(twin)
+        members.insert(rng.randint(0, len(members)), dict(twin))
+        if rng.random() < 0.6:
+            members.append(gen.gen_member(rng, hdr, len(rows), "mz", zoo_p=0.4, zoo_pool=gen.ZOO_SAFE))
     tear = {"ext": rng.choice(["csv", "json"]), "before": rng.randint(1, 8)} if rng.random() < 0.3 else None
     return {"seed": rng.getrandbits(32), "rows": rows, "members": members, "dialect": rng.choice(DIALECTS), "policy": rng.choice([["collect", "print"], ["collect"], ["collect", "fail"], ["collect", "stop"]]), "tear": tear, "peek": rng.random() < 0.3}
 
@@ -86,11 +96,17 @@ def _features(m):
     return sorted(f)
 
 
-def _state(cp, printed, lines):
+def _state(cp, printed, lines, anonymous=False):
+    printed = list(printed)
+    if anonymous:
+        # a member without an identity is called "" alone and by its position in a group: error messages quote that name
+        import re
+
+        printed = [re.sub(r"^\[[^\]]*\] ", "[] ", p) if isinstance(p, str) else p for p in printed]
     return {
         "lines": lines,
         "variables": ops.jsonable(cp.variables),
-        "printouts": list(printed),
+        "printouts": printed,
         "is_valid": cp.is_valid,
         "scan_count": cp.scan_count,
         "match_count": cp.match_count,
@@ -119,11 +135,11 @@ def execute(sc):
         alone = {}
         stop_line = {}
         try:
-            for m in members:
+            for mi, m in enumerate(members):
                 cp, printed, lines = ops.standalone(gen.render(m, "src/f.csv"), delimiter=delim, quotechar=quote)
                 out.runs += 1
-                alone[m["id"]] = _state(cp, printed, lines)
-                stop_line[m["id"]] = cp.line_monitor.physical_line_number if cp.line_monitor.physical_line_number is not None else -1
+                alone[mi] = _state(cp, printed, lines, anonymous=m.get("id") is None)
+                stop_line[mi] = cp.line_monitor.physical_line_number if cp.line_monitor.physical_line_number is not None else -1
         except Exception as e:  # noqa: BLE001
             if ops.in_repo(e) and type(e).__name__ in ("VisitError", "UnexpectedCharacters", "UnexpectedEOF", "ParsingException", "UnexpectedToken"):
                 out.discard = True
@@ -189,9 +205,9 @@ def execute(sc):
                 out.v("results_count", f"{where}: {len(rs)} results for {k} members", method=meth)
                 continue
             collects = meth in ops.COLLECTING
-            for m, r in zip(members, rs):
-                got = _state(r.csvpath, r.printouts, ops.result_lines(r) if collects else None)
-                d = _diff(alone[m["id"]], got, skip_lines=not collects)
+            for mi, (m, r) in enumerate(zip(members, rs)):
+                got = _state(r.csvpath, r.printouts, ops.result_lines(r) if collects else None, anonymous=m.get("id") is None)
+                d = _diff(alone[mi], got, skip_lines=not collects)
                 if d:
                     out.v(
                         "member_differs",
@@ -200,7 +216,7 @@ def execute(sc):
                         schedule="byline" if meth in ops.BYLINE else "serial",
                     )
             if meth == "next_paths_collect":
-                want = [l for m in members for l in alone[m["id"]]["lines"]]
+                want = [l for mi in range(len(members)) for l in alone[mi]["lines"]]
                 if caller != want:
                     out.v("next_paths_stream", f"{where}: caller saw {caller!r:.300}, concatenation of members' lines is {want!r:.300}", method=meth)
             if meth in ("collect_by_line", "next_by_line"):
@@ -209,7 +225,7 @@ def execute(sc):
                 if other is not None and other != caller:
                     out.v("byline_forms_differ", f"if_all_agree={agree}: collect_by_line returned {callers[('collect_by_line', agree)]!r:.300} but next_by_line yielded {callers[('next_by_line', agree)]!r:.300}", agree=bool(agree))
                 # per record decisions of the standalone twins
-                dec = {m["id"]: {rowid[l[0]] for l in alone[m["id"]]["lines"] if l and l[0] in rowid} for m in members}
+                dec = {mi: {rowid[l[0]] for l in alone[mi]["lines"] if l and l[0] in rowid} for mi in range(len(members))}
                 seen = [rowid.get(l[0]) if l else None for l in caller]
                 idxs = [x for x in seen if x is not None]
                 if idxs != sorted(idxs) or len(set(idxs)) != len(idxs):
@@ -217,7 +233,7 @@ def execute(sc):
                 for idx, row in enumerate(rows):
                     if not row or idx > last_all_running or row[0] in dup_ids:
                         continue
-                    votes = [idx in dec[m["id"]] for m in members]
+                    votes = [idx in dec[mi] for mi in range(len(members))]
                     want = all(votes) if agree else any(votes)
                     if (idx in idxs) != want:
                         out.v(
@@ -234,6 +250,7 @@ def execute(sc):
         out.extra["features"] = feats
         out.probe("run over a cache with half of an entry missing", False)
         out.probe("consumer read the collected lines while the run was going on", False)
+        out.probe("the same unidentified csvpath twice in a group", any(members[a]["id"] is None and members[a] == members[b] for a in range(len(members)) for b in range(a + 1, len(members))))
         out.probe("member with a mode set in its comment", any(m.get("modes") for m in members))
         for pr in ("file with an exact duplicate record", "a member stopped while others continue", "blank last record with last()", "advance in a file with interior blank records"):
             out.probe(pr, False)
